@@ -1,7 +1,7 @@
-(* C02, round 4 — reading of the translator table Gen/C02Patch.v (regenerated from pkg/kube/client.go on
-   every run): for each kind of target and each flag combination, WHICH library call computes the update of
-   a live object and WHICH document stands in which argument — resolved through the parameter chain
-   Update/UpdateThreeWayMerge -> update -> updateResource -> createPatch as the source text has it.
+(* C02, round 4 — reading of the translator table Gen/C02Patch.v (regenerated from pkg/kube on every run by
+   SYMBOLIC EVALUATION of updateResource with createPatch and any same-package helper inlined, see
+   harness/cmd/hx/gentables_c02.go): for each kind of target and each flag combination, the sequence of cluster
+   calls, WHICH library call computes the patch and WHICH document stands in which argument.
    Props/C02.v proves the outcome equal to the model's [mode_of] / [merge_by] for all flag combinations.
 
    Trusted here: the meaning of the four calls
@@ -9,9 +9,9 @@
      jsonpatch.CreateMergePatch(original, modified)
      jsonmergepatch.CreateThreeWayJSONMergePatch(original, modified, current, preconditions...)
      helper.Replace(namespace, name, overwrite, obj)
-   and that helper.Get(target.Namespace, target.Name) is the live object. *)
+   that helper.Get(target.Namespace, target.Name) is the live object, and the evaluator's reading of Go. *)
 From Coq Require Import List String Bool Arith.
-From Helm Require Import Common.Assoc Gen.C02Patch Engine.Obj2 Engine.Update2.
+From Helm Require Import Common.Assoc Engine.PatchEvents Gen.C02Patch Engine.Obj2 Engine.Update2.
 Import ListNotations.
 Local Open Scope string_scope.
 
@@ -35,163 +35,98 @@ Definition way_eqb (a b : way) : bool :=
   | _, _ => false
   end.
 
-Fixpoint index_of (x : string) (l : list string) : option nat :=
-  match l with
-  | [] => None
-  | y :: t => if String.eqb x y then Some 0 else match index_of x t with Some n => Some (S n) | None => None end
-  end.
-
-(* the argument a call binds to the callee's parameter p *)
-Definition arg_of (params args : list string) (p : string) : option string :=
-  match index_of p params with Some n => nth_error args n | None => None end.
-
-Definition call_args (fn : string) (calls : list (string * list string)) : option (list string) := aget fn calls.
-
-Definition is_param (x : string) (params : list string) : bool :=
-  match index_of x params with Some _ => true | None => false end.
-
-(* which document a variable of createPatch that is marshalled holds *)
-Definition var_doc (src : string) : option doc :=
-  if String.eqb src "target.Object" then
-    (* createPatch.target <- updateResource.target <- the visited entry of the target list *)
-    match call_args "createPatch" update_resource_patch, call_args "updateResource" update_calls with
-    | Some a1, Some a2 =>
-        match arg_of create_patch_params a1 "target" with
-        | Some t1 => match arg_of update_resource_params a2 t1 with
-                     | Some "info" => Some DTgt
-                     | _ => None
-                     end
-        | None => None
-        end
-    | _, _ => None
-    end
-  else if is_param src create_patch_params then
-    (* a parameter of createPatch: follow it to update(): originalInfo.Object with originalInfo := original.Get(info) *)
-    match call_args "createPatch" update_resource_patch, call_args "updateResource" update_calls with
-    | Some a1, Some a2 =>
-        match arg_of create_patch_params a1 src with
-        | Some p1 =>
-            match arg_of update_resource_params a2 p1 with
-            | Some "originalInfo.Object" =>
-                match call_args "original.Get" update_calls with
-                | Some ["info"] => Some DOrig
-                | _ => None
-                end
-            | _ => None
-            end
-        | None => None
-        end
-    | _, _ => None
-    end
-  else if String.eqb src "currentObj" then
-    match current_obj_source with
-    | ("helper.Get", ["target.Namespace"; "target.Name"]) => Some DLive
-    | _ => None
-    end
-  else None.
-
-Definition data_doc (v : string) : option doc :=
-  match aget v marshal_sources with Some src => var_doc src | None => None end.
-
-Definition row_way (call : string * list string) (ptype : string) : option way :=
-  match call with
-  | ("strategicpatch.CreateThreeWayMergePatch", [a; b; c; _; "true"]) =>
-      if String.eqb ptype "types.StrategicMergePatchType" then
-        match data_doc a, data_doc b, data_doc c with
-        | Some x, Some y, Some z => Some (WStrategic3 x y z)
-        | _, _, _ => None
-        end
-      else None
-  | ("jsonpatch.CreateMergePatch", [a; b]) =>
-      if String.eqb ptype "types.MergePatchType" then
-        match data_doc a, data_doc b with
-        | Some x, Some y => Some (WJson2 x y)
-        | _, _ => None
-        end
-      else None
-  | ("jsonmergepatch.CreateThreeWayJSONMergePatch", [a; b; c; _]) =>
-      if String.eqb ptype "types.MergePatchType" then
-        match data_doc a, data_doc b, data_doc c with
-        | Some x, Some y, Some z => Some (WJson3 x y z)
-        | _, _, _ => None
-        end
-      else None
-  | _ => None
-  end.
-
-(* the value of a condition of createPatch; None = a condition this reading does not know *)
-Definition cond_val (unstr tw : bool) (c : string) : option bool :=
-  if String.eqb c "isUnstructured || isCRD" then Some unstr
-  else if String.eqb c "threeWayMergeForUnstructured" then Some tw
-  else None.
-
-Fixpoint conds_hold (unstr tw : bool) (cs : list string) : option bool :=
-  match cs with
-  | [] => Some true
-  | c :: t => match cond_val unstr tw c, conds_hold unstr tw t with
-              | Some a, Some b => Some (a && b)
-              | _, _ => None
-              end
-  end.
-
-(* the first `return patch, ...` reached *)
-Fixpoint rows_way (unstr tw : bool) (rows : list (list string * (string * list string) * string)) : option way :=
-  match rows with
-  | [] => None
-  | (cs, call, ty) :: t =>
-      match conds_hold unstr tw cs with
-      | Some true => row_way call ty
-      | Some false => rows_way unstr tw t
+(* ---- update(): which documents reach updateResource ----
+   update_params = the parameters of Client.update: original list, target list, force, threeWayMerge;
+   update_visitor = (list, info): the call runs inside <list>.Visit(func(info, ...));
+   update_call = the arguments of its updateResource call, once-defined locals replaced by their definitions. *)
+Definition sval_doc (v : sval) : option doc :=
+  match v with
+  | SLive => Some DLive
+  | SParam 1 "Object" =>
+      (* updateResource's 2nd parameter is the visited entry of the TARGET list *)
+      match nth_error update_call 1 with
+      | Some a => if String.eqb a (snd update_visitor) && String.eqb (fst update_visitor) (nth 1 update_params "")
+                  then Some DTgt else None
       | None => None
       end
+  | SParam 2 "" =>
+      (* its 3rd parameter is the Object of the ORIGINAL list's entry matching the visited one *)
+      match nth_error update_call 2 with
+      | Some a => if String.eqb a (nth 0 update_params "" ++ ".Get(" ++ snd update_visitor ++ ").Object")
+                  then Some DOrig else None
+      | None => None
+      end
+  | _ => None
   end.
 
-(* the threeWayMerge flag as the two entry points set it, and that it and force travel unchanged down to
-   createPatch / updateResource *)
-Definition entry_tw (name : string) : option bool :=
-  match aget name update_entries with
-  | Some ("c.update", args) =>
-      match arg_of update_params args "threeWayMerge", arg_of update_params args "force" with
-      | Some "true", Some "force" => Some true
-      | Some "false", Some "force" => Some false
+Definition patch_way (lib : string) (docs : list sval) (extra : list string) (ptype : string) : option way :=
+  match lib, docs, extra, ptype with
+  | "strategicpatch.CreateThreeWayMergePatch", [a; b; c], ["_"; "true"], "types.StrategicMergePatchType" =>
+      match sval_doc a, sval_doc b, sval_doc c with
+      | Some x, Some y, Some z => Some (WStrategic3 x y z)
+      | _, _, _ => None
+      end
+  | "jsonpatch.CreateMergePatch", [a; b], [], "types.MergePatchType" =>
+      match sval_doc a, sval_doc b with
+      | Some x, Some y => Some (WJson2 x y)
       | _, _ => None
       end
-  | _ => None
-  end.
-
-Definition flags_forwarded : bool :=
-  match call_args "createPatch" update_resource_patch, call_args "updateResource" update_calls with
-  | Some a1, Some a2 =>
-      match arg_of create_patch_params a1 "threeWayMergeForUnstructured" with
-      | Some p1 => match arg_of update_resource_params a2 p1, arg_of update_resource_params a2 "force" with
-                   | Some "threeWayMerge", Some "force" => true
-                   | _, _ => false
-                   end
-      | None => false
+  | "jsonmergepatch.CreateThreeWayJSONMergePatch", [a; b; c], ["_"], "types.MergePatchType" =>
+      match sval_doc a, sval_doc b, sval_doc c with
+      | Some x, Some y, Some z => Some (WJson3 x y z)
+      | _, _, _ => None
       end
-  | _, _ => false
+  | _, _, _, _ => None
   end.
 
-(* the patch and its type reach the server as createPatch returned them *)
-Definition patch_sent : bool :=
-  match call_args "helper.Patch" update_resource_patch with
-  | Some ["target.Namespace"; "target.Name"; "patchType"; "patch"; "nil"] => true
-  | _ => false
-  end.
-
-Definition force_way : option way :=
-  match update_resource_force with
-  | [("helper.Replace", ["target.Namespace"; "target.Name"; "true"; obj])] => option_map WReplace (var_doc obj)
+(* the only two shapes the traces of updateResource may have:
+     --force : Replace(target), Refresh
+     else    : Get live; then either (patch empty) target.Get, or Patch(lib(docs), type), Refresh *)
+Definition traces_way (ts : list (list pev)) : option way :=
+  match ts with
+  | [[PReplace "true" v; PRefresh "replace"]] => option_map WReplace (sval_doc v)
+  | [[PGetLive; PBranch "patch-empty" true; PTargetGet];
+     [PGetLive; PBranch "patch-empty" false; PPatch lib docs extra ptype; PRefresh "patch"]] =>
+      patch_way lib docs extra ptype
   | _ => None
+  end.
+
+Definition flags_eqb (a b : bool * bool * bool) : bool :=
+  Bool.eqb (fst (fst a)) (fst (fst b)) && Bool.eqb (snd (fst a)) (snd (fst b)) && Bool.eqb (snd a) (snd b).
+
+Definition traces_of (force unstr tw : bool) : option (list (list pev)) :=
+  match find (fun r => flags_eqb (fst r) (force, unstr, tw)) update_resource_traces with
+  | Some r => Some (snd r)
+  | None => None
+  end.
+
+(* the threeWayMerge flag as the two entry points set it: c.update(<their own three parameters>, literal) *)
+Definition entry_tw (name : string) : option bool :=
+  match aget name update_entries with
+  | Some ([p0; p1; p2], [a0; a1; a2; lit]) =>
+      if String.eqb a0 p0 && String.eqb a1 p1 && String.eqb a2 p2 then
+        (if String.eqb lit "true" then Some true else if String.eqb lit "false" then Some false else None)
+      else None
+  | _ => None
+  end.
+
+(* force and threeWayMerge travel unchanged from update() to updateResource *)
+Definition flags_forwarded : bool :=
+  match nth_error update_call 3, nth_error update_call 4, nth_error update_params 2, nth_error update_params 3 with
+  | Some a3, Some a4, Some p2, Some p3 =>
+      String.eqb a3 p2 && String.eqb a4 p3 && Nat.eqb (List.length update_call) 5 && Nat.eqb (List.length update_params) 4
+  | _, _, _, _ => false
   end.
 
 (* entry point (false = Update, true = UpdateThreeWayMerge), force flag, kind of the target *)
 Definition table_way (three_way_entry force unstr : bool) : option way :=
   match entry_tw (if three_way_entry then "UpdateThreeWayMerge" else "Update") with
   | Some tw =>
-      if negb (flags_forwarded && patch_sent && String.eqb update_resource_cond "force") then None
-      else if force then force_way
-      else rows_way unstr tw create_patch_rows
+      if negb flags_forwarded then None
+      else match traces_of force unstr tw with
+           | Some ts => traces_way ts
+           | None => None
+           end
   | None => None
   end.
 
